@@ -196,6 +196,25 @@ def run_scenarios(ctx, scen):
             locked = pgpy.PGPKey.from_blob(bytes(priv))[0]
             locked.protect(PW, pgpy.constants.SymmetricKeyAlgorithm.AES128, pgpy.constants.HashAlgorithm.SHA256)
 
+        # "locked" also after a history: components under different passphrases (as GnuPG >= 2.1 exports them) and unlock attempts that
+        # failed half-way (the primary's passphrase opens the primary only) or entirely
+        locked_hist = locked
+        if locked is not None and len(priv.subkeys) and n % 2 == 1:
+            try:
+                lh = pgpy.PGPKey.from_blob(bytes(locked))[0]
+                with lh.unlock(PW):
+                    for sk_ in lh.subkeys.values():
+                        sk_.protect(PW + ' (subkeys only)', pgpy.constants.SymmetricKeyAlgorithm.AES128, pgpy.constants.HashAlgorithm.SHA256)
+                for attempt_pw in (PW, 'entirely wrong', PW):
+                    try:
+                        with lh.unlock(attempt_pw):
+                            pass
+                    except Exception:
+                        pass
+                locked_hist = lh
+            except Exception as ex:
+                ctx.note('split-passphrase history not constructible: %s' % repr(ex)[:100])
+
         def record(sc, predicted, actor):
             user = None
             if ident is not None:
@@ -223,7 +242,7 @@ def run_scenarios(ctx, scen):
                 if not record(sc, predicted, priv):
                     skipped += 1
             elif sc['form'] == 'private-locked':
-                if not record(sc, predicted, locked):
+                if not record(sc, predicted, locked_hist):
                     skipped += 1
         unl = [it for it in items if it[0]['form'] == 'private-unlocked']
         if unl:
